@@ -48,16 +48,20 @@ structure Adv (s s' : St) (new : List BLine) (n : Nat) : Prop where
   ifs : s'.ifs = s.ifs
   fcnt : s'.forCounter = s.forCounter
   icnt : s'.ifCounter = s.ifCounter
+  /-- the new lines are not structural: they carry no block bracket, no construct label and no construct jump -/
+  plain : ∀ l ∈ new, plainB l = true
 
-theorem Adv.refl (s : St) : Adv s s [] 0 := ⟨rfl, rfl, rfl, rfl, rfl, rfl, rfl, rfl, rfl⟩
+theorem Adv.refl (s : St) : Adv s s [] 0 := ⟨rfl, rfl, rfl, rfl, rfl, rfl, rfl, rfl, rfl, by simp⟩
 
 theorem Adv.trans {s s1 s2 : St} {a b : List BLine} {m n : Nat} (h1 : Adv s s1 a m) (h2 : Adv s1 s2 b n) :
     Adv s s2 (b ++ a) (m + n) :=
   ⟨by rw [h2.code, h1.code, List.append_assoc], by rw [h2.cnt, h1.cnt, Nat.add_assoc], by rw [h2.funcs, h1.funcs],
    by rw [h2.fcode, h1.fcode], by rw [h2.fors, h1.fors], by rw [h2.ends, h1.ends], by rw [h2.ifs, h1.ifs],
-   by rw [h2.fcnt, h1.fcnt], by rw [h2.icnt, h1.icnt]⟩
+   by rw [h2.fcnt, h1.fcnt], by rw [h2.icnt, h1.icnt],
+   fun l hl => by rcases List.mem_append.mp hl with h | h; exact h2.plain l h; exact h1.plain l h⟩
 
-theorem Adv.ofAdvB (s : St) (new : List BLine) (n : Nat) : Adv s (advB s new n) new n := ⟨rfl, rfl, rfl, rfl, rfl, rfl, rfl, rfl, rfl⟩
+theorem Adv.ofAdvB (s : St) (new : List BLine) (n : Nat) (hp : ∀ l ∈ new, plainB l = true) : Adv s (advB s new n) new n :=
+  ⟨rfl, rfl, rfl, rfl, rfl, rfl, rfl, rfl, rfl, hp⟩
 
 theorem HoldsD.mono {t v : String} {k k' : Nat} {ρ ρ' : Store} (h : HoldsD t v k ρ) (hk : k ≤ k')
     (hf : ∀ x, (∀ j, k ≤ j → x ≠ helperName j) → ρ' x = ρ x) : HoldsD t v k' ρ' := by
@@ -148,12 +152,12 @@ theorem ExprSemB.funcs {env : Src.Env} {v : String} {s s' : St} {r : List String
   rw [e.funcs]; exact h0
 
 theorem semB_unary {env : Src.Env} {vx v : String} {s s1 : St} {a : List String}
-    (hx : ExprSemB env vx s a s1) (mk : String → BLine)
+    (hx : ExprSemB env vx s a s1) (mk : String → BLine) (hmk : ∀ t, plainB (mk t) = true)
     (hstep : ∀ (ρ : Store) out k tx, HoldsD tx vx k ρ →
       stepB (mk tx) ⟨ρ, out⟩ = some (.normal, ⟨ρ.set (helperName s1.varCounter) v, out⟩)) :
     ExprSemB env v s ["!" ++ helperName s1.varCounter ++ "!"] (advB s1 [mk (firstValue a)] 1) := by
   obtain ⟨tx, newx, nx, rfl, ax, semx⟩ := hx
-  refine ⟨_, [mk tx] ++ newx, nx + 1, rfl, ax.trans (Adv.ofAdvB _ _ _), ?_⟩
+  refine ⟨_, [mk tx] ++ newx, nx + 1, rfl, ax.trans (Adv.ofAdvB _ _ _ (by simp [hmk])), ?_⟩
   intro ρ out ha
   obtain ⟨ρ1, run1, fr1, hold1⟩ := semx ρ out ha
   rw [ax.cnt] at hstep ⊢
@@ -172,12 +176,13 @@ theorem semB_unary {env : Src.Env} {vx v : String} {s s1 : St} {a : List String}
 
 theorem semB_binary {env : Src.Env} {vl vr v : String} {s s1 s2 : St} {a b : List String}
     (hl : ExprSemB env vl s a s1) (hr : ExprSemB env vr s1 b s2) (mk : String → String → BLine)
+    (hmk : ∀ t u, plainB (mk t u) = true)
     (hstep : ∀ (ρ : Store) out k tl tr, HoldsD tl vl k ρ → HoldsD tr vr k ρ →
       stepB (mk tl tr) ⟨ρ, out⟩ = some (.normal, ⟨ρ.set (helperName s2.varCounter) v, out⟩)) :
     ExprSemB env v s ["!" ++ helperName s2.varCounter ++ "!"] (advB s2 [mk (firstValue a) (firstValue b)] 1) := by
   obtain ⟨tl, newl, nl, rfl, al, seml⟩ := hl
   obtain ⟨tr, newr, nr, rfl, ar, semr⟩ := hr
-  refine ⟨_, [mk tl tr] ++ (newr ++ newl), nl + nr + 1, rfl, (al.trans ar).trans (Adv.ofAdvB _ _ _), ?_⟩
+  refine ⟨_, [mk tl tr] ++ (newr ++ newl), nl + nr + 1, rfl, (al.trans ar).trans (Adv.ofAdvB _ _ _ (by simp [hmk])), ?_⟩
   intro ρ out ha
   obtain ⟨ρ1, run1, fr1, hold1⟩ := seml ρ out ha
   obtain ⟨ρ2, run2, fr2, hold2⟩ := semr ρ1 out (fr1.agree ha)
